@@ -106,6 +106,32 @@ SPEC += [
      "fun args => ∀ lo hi : Int, args = [.num (.int lo), .num (.int hi)] → (hi + 1 - lo).toNat ≤ maxRange"),
 ]
 
+# the quantity-operator closures of register_quantities_op: f (Quantity, Quantity), left_is_number, right_is_number
+QF = "ka.functions.register_quantities_op.<locals>."
+for op in ["+", "-", "*", "/", "<", "<=", "==", "!=", ">", ">="]:
+    wrapb = op in "+-*/"
+    wrap = "True" if wrapb else "False"
+    lw = "true" if wrapb else "false"
+    if op == "*":
+        cell, rule, lem = 'ka.functions.<lambda:register_quantities_op(\\"*\\", lambda qv1, qv2: qv1*qv2)>', ".mul", "qty_mul_agree"
+    elif op == "/":
+        cell, rule, lem = 'ka.functions.<lambda:register_quantities_op(\\"/\\", lambda qv1, qv2: qv1/qv2)>', ".div", "qty_div_agree"
+    else:
+        cell, rule, lem = "None", ".same", "qty_same_agree"
+    fd = "%sf['%s',%s,%s]" % (QF, op, cell, wrap)
+    QQ = '%s h "%s" (by decide) %s _ _ _ _' % (lem, op, lw)
+    SPEC += [
+        ("%s|(Quantity, Quantity)|%s" % (op, fd), '.qtyQty "%s" %s %s' % (op, rule, lw), QQ),
+        ("%s|(Number, Quantity)|%sleft_is_number[%s]" % (op, QF, fd), '.numQty "%s" %s %s' % (op, rule, lw),
+         'left_is_number_agree _ "%s" %s %s _ _ _ (%s)' % (op, rule, lw, QQ)),
+        ("%s|(Quantity, Number)|%sright_is_number[%s]" % (op, QF, fd), '.qtyNum "%s" %s %s' % (op, rule, lw),
+         'right_is_number_agree _ "%s" %s %s _ _ _ (%s)' % (op, rule, lw, QQ)),
+    ]
+SPEC += [
+    ('==|(Any, Any)|ka.functions.<lambda:register_function(lambda x, y: 0, \\"==\\", (Any, Any))>', ".const 0", "rfl"),
+    ('!=|(Any, Any)|ka.functions.<lambda:register_function(lambda x, y: 1, \\"!=\\", (Any, Any))>', ".const 1", "rfl"),
+]
+
 HOLDS = {".num": ("holds_num", "⟨n%d, rfl⟩"), ".intv": ("holds_intv", "⟨a%d, b%d, rfl⟩"), ".arr": ("holds_arr", "⟨xs%d, rfl⟩"),
          ".qty": ("holds_qty", "⟨m%d, d%d, rfl⟩"), ".int": ("holds_int", "⟨k%d, rfl⟩"), ".any": None}
 
